@@ -524,8 +524,16 @@ fn run_b(engine: Engine, rules: &[BRule], x0: i64, nfacts: u8, second_call: bool
                 let r = budget::with_budget(step_budget, || e.fire_all());
                 total_fired += judge(r, c, obs)?;
                 if c == 0 && second_call {
-                    e.reset_fired_flags();
-                    carry.borrow_mut().clear();
+                    match between % 4 {
+                        0 => {
+                            e.reset_fired_flags();
+                            carry.borrow_mut().clear();
+                        }
+                        // no reset: what fired stays fired, whether the client writes a fact in between or not
+                        1 => {}
+                        2 => e.set_fact("F.x".into(), x0.to_string()),
+                        _ => e.set_fact("F.on".into(), "true".into()),
+                    }
                 }
             }
         }
@@ -557,8 +565,15 @@ fn run_b(engine: Engine, rules: &[BRule], x0: i64, nfacts: u8, second_call: bool
                 let r = budget::with_budget(step_budget, || e.fire_all());
                 total_fired += judge(r, c, obs)?;
                 if c == 0 && second_call {
-                    e.reset_fired_flags();
-                    carry.borrow_mut().clear();
+                    match between % 4 {
+                        0 => {
+                            e.reset_fired_flags();
+                            carry.borrow_mut().clear();
+                        }
+                        1 => {}
+                        2 => e.set_fact("F.x", x0),
+                        _ => e.set_fact("F.on", true),
+                    }
                 }
             }
         }
